@@ -33,9 +33,11 @@ static void H1(const char *msg, void *ptr, int err) { (void)msg; (void)ptr; rec(
 static void H2(const char *msg, void *ptr, int err) { (void)msg; (void)ptr; rec(3, err); }
 /* a handler that does not return: it leaves through longjmp into the code that made the violating call */
 static __thread sigjmp_buf hj_buf; static __thread int hj_armed;
+/* the library's abort handler, pre-empted like the default one: registering it is legitimate, and whether it runs is observed instead of the process dying */
+void abort_handler_s(const char *msg, void *ptr, int err) { (void)msg; (void)ptr; rec(5, err); }
 static void HJ(const char *msg, void *ptr, int err) { (void)msg; (void)ptr; rec(4, err); if (hj_armed) { hj_armed = 0; siglongjmp(hj_buf, 1); } }
-static handler_t hfn(int id) { return id == 0 ? NULL : id == 1 ? ignore_handler_s : id == 2 ? H1 : id == 4 ? HJ : H2; }
-static int hid_of(handler_t h) { return h == NULL ? 0 : h == ignore_handler_s ? 1 : h == H1 ? 2 : h == H2 ? 3 : h == HJ ? 4 : 9; }
+static handler_t hfn(int id) { return id == 0 ? NULL : id == 1 ? ignore_handler_s : id == 2 ? H1 : id == 4 ? HJ : id == 5 ? abort_handler_s : H2; }
+static int hid_of(handler_t h) { return h == NULL ? 0 : h == ignore_handler_s ? 1 : h == H1 ? 2 : h == H2 ? 3 : h == HJ ? 4 : h == abort_handler_s ? 5 : 9; }
 /* calls that violate nothing (op 4): they must neither invoke a handler nor touch any registration */
 static int (*wcsnatcmp_chk)(const wchar_t *, size_t, const wchar_t *, size_t, int, int *, size_t, size_t);
 static int (*wcsicmp_chk)(const wchar_t *, size_t, const wchar_t *, size_t, int *, size_t, size_t);
@@ -59,7 +61,7 @@ static int benign_call(int c) {
 /* ---- op encoding: kind(0 str,1 mem); op: 0 set, 1 thrd_set, 2 violate, 3 spawn; arg handler id (0 NULL,2 H1,3 H2) */
 typedef struct { int t, op, kind, h; } Step;
 static int step_str(const Step *s, char *b) {
-    static const char *hn[] = { "NULL", "DEF", "H1", "H2", "HJ(longjmp)" };
+    static const char *hn[] = { "NULL", "DEF", "H1", "H2", "HJ(longjmp)", "abort_handler_s" };
     switch (s->op) {
     case 0: return sprintf(b, "T%d:set_%s(%s)", s->t, s->kind ? "mem" : "str", hn[s->h]);
     case 1: return sprintf(b, "T%d:thrd_set_%s(%s)", s->t, s->kind ? "mem" : "str", hn[s->h]);
@@ -180,7 +182,8 @@ static int bfs(int depth, int nh, long shard, long nshards) {
     capn = 1 << 18; frontier = malloc(capn * sizeof(Hist)); next_f = malloc(capn * sizeof(Hist));
     nfront = 1; frontier[0].n = 0; states = 1;
     int hv[4] = { 0, 2, 3, 1 };   /* handler argument values: NULL, H1, H2 (, explicit default) */
-    if (g_alpha2) { hv[1] = 4; hv[2] = 2; hv[3] = 3; }
+    if (g_alpha2 == 1) { hv[1] = 4; hv[2] = 2; hv[3] = 3; }
+    if (g_alpha2 == 2) { hv[1] = 5; hv[2] = 2; hv[3] = 1; }      /* NULL, the abort handler, H1 (, the ignore handler named explicitly) */
     char samples[4][400]; int nsamp = 0;
     for (int d = 0; d < depth; d++) {
         nnext = 0;
@@ -188,7 +191,7 @@ static int bfs(int depth, int nh, long shard, long nshards) {
             Hist *h = &frontier[fi];
             /* threads alive after h */
             int nt = 1; for (int i = 0; i < h->n; i++) if (h->s[i].op == 3) nt++;
-            for (int t = 0; t < nt; t++) for (int op = 0; op < (g_alpha2 ? 5 : 4); op++) for (int k = 0; k < 2; k++) for (int a = 0; a < (op == 4 ? g_ncalls : nh); a++) {
+            for (int t = 0; t < nt; t++) for (int op = 0; op < (g_alpha2 == 1 ? 5 : 4); op++) for (int k = 0; k < 2; k++) for (int a = 0; a < (op == 4 ? g_ncalls : nh); a++) {
                 if ((op == 2 || op == 3) && a) continue;
                 if (op == 3 && (k || nt >= g_maxt)) continue;
                 if (op == 4 && k) continue;
@@ -215,7 +218,7 @@ static int bfs(int depth, int nh, long shard, long nshards) {
     }
 done:
     for (int i = 0; i < nsamp; i++) printf("{\"t\":\"sample\",\"hist\":\"%s\"}\n", samples[i]);
-    printf("{\"t\":\"stat\",\"mode\":\"%s\",\"depth\":%d,\"states\":%ld,\"transitions\":%ld,\"histories\":%ld}\n", g_alpha2 ? "bfs2" : "bfs", depth, states, trans, hists);
+    printf("{\"t\":\"stat\",\"mode\":\"%s\",\"depth\":%d,\"states\":%ld,\"transitions\":%ld,\"histories\":%ld}\n", g_alpha2 == 1 ? "bfs2" : g_alpha2 == 2 ? "bfs3" : "bfs", depth, states, trans, hists);
     return 0;
 }
 
@@ -296,6 +299,8 @@ int main(int argc, char **argv) {
     wcsnatcmp_chk = dlsym(L, "_wcsnatcmp_s_chk"); wcsicmp_chk = dlsym(L, "_wcsicmp_s_chk"); sprintf_chk = dlsym(L, "_sprintf_s_chk"); wcsnorm_chk = dlsym(L, "_wcsnorm_s_chk"); strtok_chk = dlsym(L, "_strtok_s_chk"); memset_chk = dlsym(L, "_memset_s_chk");
     if (!wcsnatcmp_chk || !wcsicmp_chk || !sprintf_chk || !wcsnorm_chk || !memset_chk) { fprintf(stderr, "missing symbols\n"); return 2; }
     /* bfs2 <depth> <nhandlers> <ncalls> <maxthreads> <shard> <nshards> */
+    /* bfs3 <depth> <nhandlers> <maxthreads> <shard> <nshards>: the library's own handlers as registered values */
+    if (!strcmp(argv[1], "bfs3")) { g_alpha2 = 2; g_maxt = atoi(argv[4]); return bfs(atoi(argv[2]), atoi(argv[3]), atol(argv[5]), atol(argv[6])); }
     if (!strcmp(argv[1], "bfs2")) { g_alpha2 = 1; g_ncalls = atoi(argv[4]); g_maxt = atoi(argv[5]); return bfs(atoi(argv[2]), atoi(argv[3]), atol(argv[6]), atol(argv[7])); }
     if (!strcmp(argv[1], "bfs")) return bfs(atoi(argv[2]), atoi(argv[3]), argc > 5 ? atol(argv[4]) : 0, argc > 5 ? atol(argv[5]) : 1);
     if (!strcmp(argv[1], "replay-hist")) {
